@@ -79,55 +79,66 @@ def _is_none_name(s) -> bool:
 
 
 def _math(ctx) -> None:
+    """Results of the arithmetic / comparison kernels are unnamed - every construction site of those functions on the symx log."""
+    from ..sites2 import all_sites2
+    from ..symx import NONE as SNONE
+    from .c03 import ndims_guard2
     prog = ctx.prog
-    for s in all_sites(prog):
-        q = s.func.qualname
-        if q in MATH_FUNCS and s.kind == "copy":
-            from .c03 import _ndims_guard
-            recv = short(s.call.func.value)
-            if _ndims_guard(Resolver(prog, s.func), s.call, recv):
+    ords = {}
+    for s in all_sites2(prog):
+        q = s.top.qualname
+        if q not in MATH_FUNCS:
+            continue
+        k = ords[q] = ords.get(q, 0) + 1
+        if s.kind == "copy":
+            if ndims_guard2(s, s.recv):
                 continue                       # per-column recursion on tables
-            ok = s.name_given and isinstance(s.name, ast.Constant) and s.name.value is None
-            ctx.ob("a.math-unnamed", s.func, f"copy:{s.call.lineno - s.func.lineno}", ok, "unnamed result", s.call,
-                   message=f"{q}: `{short(s.call, 70)}` returns a copy that KEEPS the operand's name as the result of a binary operation")
+            ok = s.name_given and s.name == SNONE
+            ctx.ob("a.math-unnamed", s.top, f"copy:{k}", ok, "unnamed result", s.node,
+                   message=f"{q}: `{s.sh(s.call, 70)}` returns a copy that KEEPS the operand's name as the result of a binary operation")
             continue
-        if q not in MATH_FUNCS or s.kind != "Vector":
+        if s.kind != "Vector":
             continue
-        ctx.ob("a.math-unnamed", s.func, f"site:{s.call.lineno - s.func.lineno}", _is_none_name(s), "unnamed result", s.call,
-               message=f"{q}: the result `{short(s.call, 80)}` is named `{short(s.name) if s.name is not None else ''}`; binary arithmetic "
+        ok = (not s.name_given) or s.name == SNONE
+        ctx.ob("a.math-unnamed", s.top, f"site:{k}", ok, "unnamed result", s.node,
+               message=f"{q}: the result `{s.sh(s.call, 80)}` is named `{s.sh(s.name, 40)}`; binary arithmetic "
                        f"and comparisons give unnamed results")
 
 
 def _structure(ctx) -> None:
+    from ..sites2 import all_sites2, leaves
+    from ..symx import NONE as SNONE
     prog = ctx.prog
     # copy(): default keeps self._name
     f = prog.func("vector.Vector.copy")
-    d = Defs(f)
-    rets = [s for s in walk_stmts(f.body) if isinstance(s, ast.Return)]
-    ok = False
-    if rets and isinstance(rets[0].value, ast.Call):
-        nm = kwarg(rets[0].value, "name")
-        nv = d.resolve(nm) if isinstance(nm, ast.Name) else nm
-        ok = nv is not None and short(nv) == "self._name if name is ... else name"
+    SELF = ("param", f.params[0])
+    namep = ("param", "name")
+    own = ("attr", SELF, "_name")
+    want = ("ifexp", ("cmp", "Is", namep, ("const", "ellipsis", ...)), own, namep)
+    sites = [s for s in all_sites2(prog) if s.top is f and s.kind == "Vector"]
+    ok = bool(sites) and all(s.name == want for s in sites)
     ctx.ob("b.structure-keeps", f, "copy-default", ok, "copy() keeps self._name unless a name is passed explicitly", f.node,
            message="Vector.copy no longer keeps the receiver's name by default (`self._name if name is ... else name`)")
     # __getitem__ branches and T
+    ords = {}
     for q in ("vector.Vector.__getitem__", "vector.Vector.T"):
         g = prog.func(q)
-        for c in prog.calls_in(g):
-            if isinstance(c.func, ast.Attribute) and c.func.attr == "copy" and short(c.func.value) == "self":
-                nm = kwarg(c, "name")
-                ok = nm is None or short(nm) == "self._name"
-                ctx.ob("b.structure-keeps", g, f"copy:{c.lineno - g.lineno}", ok, "derived vector keeps the name", c,
-                       message=f"{q}: `{short(c, 70)}` passes name=`{short(nm)}`: slicing / masking / indexing must keep the vector's name")
-    for s in all_sites(prog):
-        q = s.func.qualname
+        GS = ("param", g.params[0])
+        for s in all_sites2(prog):
+            if s.top is g and s.kind == "copy" and s.recv == GS:
+                k = ords[q] = ords.get(q, 0) + 1
+                ok = (not s.name_given) or s.name == ("attr", GS, "_name")
+                ctx.ob("b.structure-keeps", g, f"copy:{k}", ok, "derived vector keeps the name", s.node,
+                       message=f"{q}: `{s.sh(s.call, 70)}` passes name=`{s.sh(s.name, 30)}`: slicing / masking / indexing must keep the "
+                               f"vector's name")
+    for s in all_sites2(prog):
+        q = s.top.qualname
         if q in KEEP_FUNCS and s.kind == "Vector":
-            want = KEEP_FUNCS[q]
-            ok = s.name is not None and short(s.name) == want
-            ctx.ob("b.structure-keeps", s.func, f"site:{s.call.lineno - s.func.lineno}", ok, f"{q.split('.')[-1]} keeps the name", s.call,
-                   message=f"{q}: the result `{short(s.call, 80)}` is named `{short(s.name) if s.name is not None else 'nothing'}`, "
-                           f"expected {want}")
+            k = ords[q] = ords.get(q, 0) + 1
+            wantn = ("attr", ("param", s.top.params[0]), "_name")
+            ok = s.name == wantn
+            ctx.ob("b.structure-keeps", s.top, f"site:{k}", ok, f"{q.split('.')[-1]} keeps the name", s.node,
+                   message=f"{q}: the result `{s.sh(s.call, 80)}` is named `{s.sh(s.name, 30)}`, expected self._name")
 
 
 def _writes(ctx) -> None:
